@@ -4,6 +4,7 @@ From TV Require Import Base.Prelude Base.Utf8 Base.Winnow Gen.Consts Extract.Sho
 From TV Require Import Model.Datetime Model.DatetimeStd Model.Numbers Model.Tree Model.Parse Model.Document Model.Write Model.Encode.
 From TV Require Spec.Norm Proofs.PrintBackDTop.
 From TV Require Extract.Cmd_front.
+From TV Require Model.Accessors.
 Require Import String.
 
 Definition first_some {A} (a b : option A) : option A := match a with Some _ => a | None => b end.
@@ -182,11 +183,22 @@ Definition cmd_val (s : bytes) : bytes :=
   | PPanic _ => str "PANIC-model"
   end.
 
+(* acc: parse a document and look at every node through the public read API only
+   (Item / Value type_name, is_x, as_x, as_table_like, Item::get by key and by index,
+   Array::get / len, InlineTable::get, doc["k"]); Model/Accessors.v *)
+Definition cmd_acc (s : bytes) : bytes :=
+  match parse_document s with
+  | POk d => str "ok acc=" ++ Accessors.acc_doc (doc_root d)
+  | PErr _ _ => str "err"
+  | PPanic _ => str "PANIC-model"
+  end.
+
 Definition run_cmd (name : bytes) (args : list bytes) : bytes :=
   if bytes_eqb name (str "dt") then
     match args with [s] => cmd_dt s | _ => str "bad-args" end
   else if bytes_eqb name (str "dtp") then cmd_dtp args
   else if bytes_eqb name (str "doc") then match args with [s] => cmd_doc s | _ => str "bad-args" end
+  else if bytes_eqb name (str "acc") then match args with [s] => cmd_acc s | _ => str "bad-args" end
   else if bytes_eqb name (str "val") then match args with [s] => cmd_val s | _ => str "bad-args" end
   else if bytes_eqb name (str "docv") then match args with [s] => Cmd_front.cmd_docv_front s | _ => str "bad-args" end
   else if bytes_eqb name (str "rt") then match args with [s] => cmd_rt s | _ => str "bad-args" end
